@@ -22,7 +22,7 @@ from ..cfg import CFG, exprs_in_node
 from ..index import AnchorError, FuncNode
 from ..selftest import Twin
 from .c24 import Cfg, Harness, StoreModel, _guard
-from .c28 import IN_BLOCKS_OLD, IN_TABLE_ROWS, FnRef, ModelObject, SqlUnsupported, XInterp, in_blocks_table_driven, model_unsupported, parse_sql, walk_sql
+from .c28 import EVENT_INSERT_VALUES, IN_BLOCKS_OLD, IN_TABLE_ROWS, FnRef, ModelObject, SqlUnsupported, XInterp, _module_constant, event_insert_as_constant, in_blocks_table_driven, model_unsupported, parse_sql, walk_sql
 
 EXPLANATION = (
     "R1 sequence allocation: (a) memory `append_event`: on the CFG no suspension point (await / async with / async for / yield) lies between the first "
@@ -372,10 +372,19 @@ def rule_r1_structural(chk: Any) -> None:
     if sfn is None:
         raise AnchorError("C16.R1: SqliteWorkflowStore.append_event not found")
     inserts = []
+    texts: list[tuple[ast.AST, str]] = []
     for c in ast.walk(sfn):
-        if isinstance(c, ast.Constant) and isinstance(c.value, str) and "INSERT" in c.value.upper():
+        if isinstance(c, ast.Constant) and isinstance(c.value, str):
+            texts.append((c, c.value))
+        elif isinstance(c, ast.Name) and isinstance(c.ctx, ast.Load):
+            # statement text kept in a module-level constant (bound once, unconditionally, never rebound or shadowed)
+            v = _module_constant(ms, c.id, c)
+            if isinstance(v, ast.Constant) and isinstance(v.value, str):
+                texts.append((c, v.value))
+    for c, text in texts:
+        if "INSERT" in text.upper():
             try:
-                for st in parse_sql(c.value):
+                for st in parse_sql(text):
                     if st["kind"] == "insert":
                         inserts.append((c, st))
             except SqlUnsupported as e:
@@ -769,6 +778,12 @@ TWINS: list[Twin] = [
     Twin("sqlite: sequence read in one statement and inserted in another", _PS,
          '            conn.execute(\n                """INSERT INTO events (run_id, sequence, timestamp, event_json)\n                VALUES (?, COALESCE((SELECT MAX(sequence) FROM events WHERE run_id = ?), -1) + 1, CURRENT_TIMESTAMP, ?)""",\n                (\n                    run_id,\n                    run_id,\n                    event.model_dump_json(),\n                ),\n            )',
          '            nxt = conn.execute("SELECT COALESCE(MAX(sequence), -1) + 1 FROM events WHERE run_id = ?", (run_id,)).fetchone()[0]\n            conn.execute(\n                """INSERT INTO events (run_id, sequence, timestamp, event_json)\n                VALUES (?, ?, CURRENT_TIMESTAMP, ?)""",\n                (run_id, nxt, event.model_dump_json()),\n            )', "C16.R1"),
+    # ---- R1: statement text in a module-level string constant
+    Twin("benign: sqlite event INSERT text in a module-level constant, payload in a local, early returns in _connect / notify", _PS, *event_insert_as_constant(), None),
+    Twin("sqlite: module-level INSERT constant takes the sequence as a parameter (read by an earlier statement)", _PS,
+         *event_insert_as_constant(values="?, ?, CURRENT_TIMESTAMP, ?", args="(run_id, nxt, event_json)",
+                                   before='            nxt = conn.execute("SELECT COALESCE(MAX(sequence), -1) + 1 FROM events WHERE run_id = ?", (run_id,)).fetchone()[0]\n'), "C16.R1"),
+    Twin("sqlite: module-level INSERT constant starts sequences at 1", _PS, *event_insert_as_constant(values=EVENT_INSERT_VALUES.replace("-1) + 1", "0) + 1")), "C16.R1"),
     # ---- R2 breaking
     Twin("memory: inclusive cursor in query_events", _PM, "events = [e for e in events if e.sequence > after_sequence]", "events = [e for e in events if e.sequence >= after_sequence]", "C16.R2"),
     Twin("sqlite: inclusive cursor in query_events", _PS, 'sql += " AND sequence > ?"', 'sql += " AND sequence >= ?"', "C16.R2"),
